@@ -48,6 +48,25 @@ Definition merge_dirs (lfi bfi : list finfo) : list finfo :=
 
 Definition count_of (r : res) : Z := match r with RData b _ => zlen b | _ => 0 end.
 
+(* UnionFile.Write / WriteAt / WriteString after the layer took the bytes without an error (r) and the same
+   call was made on the base (rb).  The tree as pinned (unionfile_write_checks_base_count = 0):
+       _, err = f.Base.Write(s)             the layer's count with the base's error; the base's count is dropped
+   repaired (= 1):
+       nb, err = f.Base.Write(s)
+       if err == nil && nb < n { n, err = nb, io.ErrShortWrite }
+   Truncate and Sync have no count: the base's error only, in both shapes. *)
+Definition is_write_op (o : op) : bool :=
+  match o with HWrite _ _ | HWriteString _ _ | HWriteAt _ _ _ => true | _ => false end.
+Definition union_write_result_gen (chk : Z) (o : op) (r rb : res) : res :=
+  match r, rb with
+  | RCount n _, RCount nb None =>
+    if Z.eqb chk 1 && is_write_op o && (nb <? n) then RCount nb (Some (E KShortWrite))
+    else set_err r (res_err rb)
+  | _, _ => set_err r (res_err rb)
+  end.
+Definition union_write_result : op -> res -> res -> res :=
+  union_write_result_gen unionfile_write_checks_base_count.
+
 (* one method of UnionFile; state = (base fs, layer fs), the ufile itself is returned updated *)
 Definition uf_op (sb : B) (sl : L) (u : ufile) (o : op) : B * L * ufile * res :=
   match o with
@@ -106,13 +125,14 @@ Definition uf_op (sb : B) (sl : L) (u : ufile) (o : op) : B * L * ufile * res :=
     | None, None => (sb, sl, u, RPos 0 (Some eBADFD))
     end
   | HWrite _ _ | HWriteString _ _ | HWriteAt _ _ _ | HTruncate _ _ | HSync _ =>
-    (* layer first; on success the same call on the base, whose error (only) is reported *)
+    (* layer first; on success the same call on the base, whose error is reported — and, since the repair, a
+       byte count of the base that is smaller than the layer's (union_write_result) *)
     match ulayer u, ubase u with
     | Some lh, ob =>
       let '(sl1, r) := lstep sl (op_set_handle o lh) in
       match ob, res_err r with
       | Some bh, None =>
-        let '(sb1, rb) := bstep sb (op_set_handle o bh) in (sb1, sl1, u, set_err r (res_err rb))
+        let '(sb1, rb) := bstep sb (op_set_handle o bh) in (sb1, sl1, u, union_write_result o r rb)
       | _, _ => (sb, sl1, u, r)
       end
     | None, Some bh => let '(sb1, r) := bstep sb (op_set_handle o bh) in (sb1, sl, u, r)
